@@ -178,3 +178,33 @@ Check C09_reachable_graphs :
     /\ decode lim n (encode g) = LOk (mkG (g_stores g) (g_branches g) (g_vertices g) 0)
     /\ forall k, k < length (encode g) -> decode lim n (firstn k (encode g)) = LErr.
 Print Assumptions C09_reachable_graphs.
+
+(** ** the set of images is prefix-free (SerialMore.v) *)
+
+From Sodg Require Import SerialMore NextIrrelevant.
+
+(** a complete image is never the beginning of a longer image: a file cut short is not the image of another graph *)
+Theorem C09_image_prefix_free :
+  forall lim n g1 g2 rest,
+    wf_image_state lim n g1 -> wf_image_state lim n g2 ->
+    encode g2 = encode g1 ++ rest -> rest = [].
+Proof. exact image_prefix_free. Qed.
+
+Check C09_image_prefix_free :
+  forall lim n g1 g2 rest,
+    wf_image_state lim n g1 -> wf_image_state lim n g2 ->
+    encode g2 = encode g1 ++ rest -> rest = [].
+Print Assumptions C09_image_prefix_free.
+
+Theorem C09_image_prefix_same :
+  forall lim n g1 g2 rest,
+    wf_image_state lim n g1 -> wf_image_state lim n g2 ->
+    encode g2 = encode g1 ++ rest -> renext 0 g1 = renext 0 g2.
+Proof. exact image_prefix_same. Qed.
+
+Check C09_image_prefix_same :
+  forall lim n g1 g2 rest,
+    wf_image_state lim n g1 -> wf_image_state lim n g2 ->
+    encode g2 = encode g1 ++ rest -> renext 0 g1 = renext 0 g2.
+Print Assumptions C09_image_prefix_same.
+
